@@ -359,6 +359,7 @@ class Minor(object):
         xi = x + xs
         eta = y + ys
         zeta = z + zs
+        delta = sqrt(xi * xi + eta * eta + zeta * zeta)
         ra = Angle(atan2(eta, xi), radians=True)
         dec = Angle(atan2(zeta, sqrt(xi * xi + eta * eta)), radians=True)
         r_sun = sqrt(xs * xs + ys * ys + zs * zs)
